@@ -48,8 +48,13 @@ def run(facts, tier):
     # equal_qname compares local parts and URIs (two ==)
     f = facts.fn("xml_xpath::eval::equal_qname")
     st["instances"] += 1
-    ops = [m["op"] for m in walk(f["body"]) if m.get("k") == "Binary"]
-    ok = ops.count("==") == 2 and "&&" in ops and "||" not in ops and "!=" not in ops
+    # the answer is a conjunction of exactly two equalities between locals (local parts, namespace names); tests on the
+    # node kind elsewhere in the function are not part of the comparison
+    conj = [m for m in walk(f["body"]) if m.get("k") == "Binary" and m.get("op") == "&&"]
+    ops = [m["op"] for c in conj for m in walk(c) if m.get("k") == "Binary"]
+    ok = len(conj) == 1 and ops.count("==") == 2 and "||" not in ops and "!=" not in ops and \
+        all(x.get("k") == "Binary" and x.get("op") == "==" for x in (conj[0]["a"], conj[0]["b"]))
+    ok = ok and not any(m.get("k") == "Binary" and m.get("op") == "||" for m in walk(f["body"]))
     res.oblige(1, ok)
     if not ok:
         res.add(Finding("C10-1", "equal_qname|shape", "equal_qname must be `local_a == local_b && uri_a == uri_b` (operators found: %s)" % ops, f["file"], f["line"], {}))
@@ -131,8 +136,34 @@ def run(facts, tier):
     e2.ordered_choice(facts, ex, res, "R01-2", lambda fn: fn["path"] in ("xml_parser::attribute", "xml_parser::ns_att_name", "xml_parser::att_def"),
                       c01.ORDERED_CHOICE_REASONS)
     c10_5(facts, res)
+    c10_6(facts, res)
     res.functions_analysed = 8
     return res
+
+
+def c10_6(facts, res):
+    """Context::expanded_name applies the context's default binding to every unprefixed name.  That is right for element name
+    tests only: every caller that expands something else (a function name, a name test that may meet an attribute) has to treat
+    the unprefixed case separately, otherwise binding a default namespace makes `count(..)` an unknown function and `@id` a
+    test for an attribute in the default namespace."""
+    st = res.rule("C10-6", instances=0)
+    for f in sorted(facts.fns.values(), key=lambda x: x["path"]):
+        if f["crate"] != "xml_xpath" or "body" not in f or "::tests::" in f["path"]:
+            continue
+        calls = [n for n in walk(f["body"]) if n.get("k") == "MethodCall" and str(n.get("path", "")).endswith("Context::expanded_name")]
+        if not calls:
+            continue
+        st["instances"] += 1
+        cases = [p for p in walk(f["body"]) if str(p.get("p", "")) in ("TupleStruct", "Struct", "Path") and
+                 str(p.get("path", "")).endswith(("QName::Unprefixed", "QName::Prefixed"))]
+        ok = bool(cases)
+        res.oblige(1, ok)
+        if not ok:
+            res.add(Finding("C10-6", f["path"].split("::")[-1], "%s expands a name with Context::expanded_name and uses the namespace of the "
+                            "default binding for unprefixed names without a case for them: the default namespace applies to element "
+                            "names only" % f["path"], f["file"], calls[0].get("ln"), {}))
+    if st["instances"] < 2:
+        raise BrokenCheck("C10-6: %d callers of Context::expanded_name (floor 2)" % st["instances"])
 
 
 def _on_field(n, field):
